@@ -12,6 +12,20 @@ SENDS = ("pgcat::client::Client::send_and_receive_loop", "pgcat::server::Server:
 GET = "pgcat::pool::ConnectionPool::get"
 
 
+def captured_names(cb, call):
+    """names of the fields / captured places (edition-2021 disjoint captures are closure fields `.N` with a debug name like `__self__tables`)
+    that the arguments of a call derive from"""
+    names = set()
+    for a in call.args:
+        for o in origins(cb, a, taint=True):
+            if o.kind in ("place", "param"):
+                names.update(p_[1:] for p_ in o.proj if p_.startswith(".") and not p_[1:].isdigit())
+                for nm_, pl, _arg in cb.var_places:
+                    if pl["l"] == o.what and pl["p"] and tuple(o.proj[:len(pl["p"])]) == tuple(pl["p"]):
+                        names.add(nm_)
+    return names
+
+
 def run(ctx):
     F = ctx.facts
     ctx.explanation = ("path-avoid rules over Client::handle's CFG from every Deny/Intercept edge to every server send, def-use/control-dependence of the pending verdict variable, "
@@ -223,12 +237,35 @@ def run(ctx):
                     prods.add(tc_.name)
                     if tc_.name.endswith("to_string"):
                         tostr_of.update(tc_.targs)
-            allf = fields_read(cb)
+            allf = set(fields_read(cb))
+            helper_calls = []
+            for g_ in sorted(F.reachable_fns([k.name for k in cb.calls() if k.name.startswith("pgcat::")])):
+                gb = F.body(g_)
+                if gb is not None and g_.startswith("pgcat::plugins::"):
+                    allf |= set(fields_read(gb))     # identifier resolution moved into a helper of the plugin module is still identifier resolution
+                    helper_calls += [k.name for k in gb.calls()]
+            prods |= set(helper_calls)
             r4.check(not any("ObjectName" in t for t in tostr_of), "not-printed-name", "the compared string is not ObjectName::to_string()",
                      "the compared string is the printed ObjectName split on '.': quoted names keep their quotes (\"users\" != users) and case is not folded (USERS, Users pass a rule for users)", c.where())
             r4.check("value" in allf, "uses-Ident.value", "the comparison uses Ident.value", "Ident.value is never read")
             r4.check("quote_style" in allf, "respects-quoting", "quote_style decides whether the name is folded", "Ident.quote_style is never consulted: quoted and unquoted spellings are treated alike")
             r4.check(any(re.search(r"to_lowercase|to_ascii_lowercase|eq_ignore_ascii_case", p) for p in prods) or bool(cb.calls("re:to_lowercase$|to_ascii_lowercase$|eq_ignore_ascii_case$")), "case-fold", "unquoted names are folded to lower case", "no case folding: `SELECT * FROM USERS` passes a rule for `users`")
+
+        # no relation is let through unseen: the callback answers Continue only after comparing the name with the configured list
+        for cb in clos:
+            cmpb = [c.block for c in cb.calls("re:^core::slice::<impl \\[T\\]>::contains$", "re:^core::iter::traits::iterator::Iterator::any$") if any("tables" in nm_ for nm_ in captured_names(cb, c))]
+            if not cmpb:
+                continue
+            conts = [blk for blk, i, st in cb.assigns() if st["lhs"]["l"] == 0 and not st["lhs"]["p"] and st["rv"]["k"] == "agg" and st["rv"].get("variant") == "Continue"]
+            csw = switches(cb)
+            noneE = set()
+            for k in cb.calls("re:^core::slice::<impl \\[T\\]>::(last|first)$"):
+                sE, nE, _ = discr_edges(cb, r"core::option::Option<&sqlparser::ast::Ident>", "Some", origin_pred=lambda o, k=k: o.kind == "call" and o.call.block == k.block, switches_cache=csw)
+                noneE |= set(nE)
+            w = cb.uncrossed_path([0], conts, blocks=cmpb, edges=noneE)
+            r4.check(bool(conts) and w is None, "no-relation-skipped", "the relation callback answers Continue only after comparing the name with the configured tables (or for an empty name)",
+                     "a relation can be let through without being compared with the configured tables (an exemption by name ignores SQL scoping: `WITH t AS (SELECT * FROM t) ...`, a later sibling, an outer query or a DML target "
+                     "all refer to the real table)", "", w and cb.describe_path(w))
 
     # ---------------- R5 order and disabled behaviour
     r5 = ctx.rule("C19-R5", "with plugins disabled nothing is blocked; intercept is consulted before table_access; an Intercept payload ends with ReadyForQuery", floor=4)
